@@ -129,6 +129,30 @@ RootsOK(r) ==
       [] r.kind \in {"2real", "3real"} ->
            (SameCoefs(c, Expand(c[1], rs)) /\ Distinct(rs) /\ WellSeparated(rs)) =>
                (r.n = Len(rs) /\ fin /\ Matched(t, c, rs, xs, KRoot(r.fn), r.fn))
+      [] r.kind = "general" ->
+           \* generic coefficients: the number of real roots from the exact discriminant (when it is clearly
+           \* non-zero) and every returned root by its backward error |p(x)| <= K eps sum|a_k||x|^k
+           \* (for the cubics the error scale is the largest root: |b/a| + 1 bounds it for these moderately scaled inputs)
+           LET scale == IF r.fn = "quadratic" THEN D!DZero ELSE D!DAdd(D!DAbs(c[2]), D!DAbs(c[1]))        \* (|b| + |a|) = |a| (|b/a| + 1)
+               resid(x) == D!DCmpAbs(D!DMul(PolyAt(c, x), c[1]),
+                                     D!DMul(D!DMul(D!DInt(KRoot(r.fn)), Eps(t)),
+                                            D!DAdd(D!DMul(AbsPolyAt(c, x), D!DAbs(c[1])), D!DMul(D!DAbs(PolyAt(Deriv(c), x)), scale)))) <= 0
+               okroots == fin /\ \A j \in 1..Len(xs) : resid(xs[j])
+           IN  IF r.fn = "quadratic"
+               THEN LET b2 == D!DSq(c[2])
+                        disc == D!DSub(b2, D!DMul(D!DInt(4), D!DMul(c[1], c[3])))
+                        clear == D!DCmpAbs(disc, D!DScale(D!DMax(b2, D!DAbs(D!DMul(D!DInt(4), D!DMul(c[1], c[3])))), -12)) >= 0
+                    IN  D!DIsZero(c[1]) \/ ~clear \/ (r.n = (IF D!DSign(disc) > 0 THEN 2 ELSE 0) /\ okroots)
+               ELSE LET a == c[1]  b == c[2]  cc == c[3]  d == c[4]
+                        t1 == D!DMul(D!DInt(18), D!DMul(D!DMul(a, b), D!DMul(cc, d)))
+                        t2 == D!DMul(D!DInt(-4), D!DMul(D!DMul(b, D!DSq(b)), d))
+                        t3 == D!DMul(D!DSq(b), D!DSq(cc))
+                        t4 == D!DMul(D!DInt(-4), D!DMul(a, D!DMul(cc, D!DSq(cc))))
+                        t5 == D!DMul(D!DInt(-27), D!DMul(D!DSq(a), D!DSq(d)))
+                        disc == D!DSum(<<t1, t2, t3, t4, t5>>)
+                        mag == D!DSumAbs(<<t1, t2, t3, t4, t5>>)
+                        clear == D!DCmpAbs(disc, D!DScale(mag, -10)) >= 0
+                    IN  D!DIsZero(a) \/ ~clear \/ (r.n = (IF D!DSign(disc) > 0 THEN 3 ELSE 1) /\ okroots)
       [] r.kind = "double" -> SameCoefs(c, Expand(c[1], rs)) => (r.n >= 1 => fin)
       [] r.kind = "repeated" -> TRUE
       [] r.kind = "1real" ->
